@@ -64,6 +64,7 @@ func (r *router) startQuicServer(cfg *ServerConfig) (*quicServer, error) {
 	l, err := qt.Listen(tlsConfig, quicConfig)
 	if err != nil {
 		qt.Close()
+		uc.Close() // qt does not close a socket it did not create
 		return nil, fmt.Errorf("failed to listen quic, %w", err)
 	}
 
@@ -77,6 +78,7 @@ func (r *router) startQuicServer(cfg *ServerConfig) (*quicServer, error) {
 		Stringer("addr", l.Addr()).
 		Msg("quic server started")
 	go func() {
+		defer uc.Close() // qt does not close a socket it did not create
 		defer l.Close()
 		err := s.run()
 		if !errors.Is(err, errServerClosed) {
